@@ -301,4 +301,24 @@ theorem proposal_roundtrip (c : Reparam (ι → K) (ι → K) K) (P PP : ι → 
     rw [this, hc.inv_jac e' e' xpN xp1 1 agree, one_mul]
     exact hc.jac x e e' hD
 
+
+/-! ### a concrete two-object list used by the `example`s of Props/C07 -/
+
+/-- halving on parameter 0 (a Rescale with scale 2) and a NullReparameterisation on parameter 1 -/
+def exampleEntries : List (Entry Nat Nat Rat) :=
+  [⟨ofScalar (0 : Nat) (0 : Nat) (fun x : Rat => (x / 2, 1 / 2)) (fun y => (y * 2, 2)), (· = 0), (· = 0), fun _ => True⟩,
+   ⟨nullReparam 1, (· = 1), (· = 1), fun _ => True⟩]
+
+theorem exampleEntries_lawful : AllLawful exampleEntries := by
+  refine ⟨?_, ?_⟩
+  · intro e he
+    simp only [exampleEntries, List.mem_cons, List.not_mem_nil, or_false] at he
+    rcases he with rfl | rfl
+    · exact ofScalar_lawful (K := Rat) 0 0 (fun x => (x / 2, 1 / 2)) (fun y => (y * 2, 2)) (fun _ => True)
+        (fun a _ => ⟨by ring, by norm_num⟩)
+    · exact ofScalar_lawful (K := Rat) 1 1 (fun x => (x, 1)) (fun x => (x, 1)) (fun _ => True) (fun a _ => ⟨rfl, by simp⟩)
+  · simp only [exampleEntries, List.pairwise_cons, List.mem_cons, List.not_mem_nil, or_false, forall_eq, List.Pairwise.nil,
+      and_true, IsEmpty.forall_iff, implies_true]
+    exact ⟨fun i h => by omega, fun k h => by omega⟩
+
 end NessaiVerif.Reparam
